@@ -603,7 +603,7 @@ fn run_probe(case: &Case, p: &Prepared, probe: &Probe, ctx: &mut Ctx) -> Option<
                     // the generic decoder also applies the content rules of logical types (uuid text,
                     // big-decimal framing); a sink that takes the underlying string or bytes does
                     // not, so with a reference schema this direction is judged structurally (above)
-                    (Err(_), Ok(_)) if structural.is_some() => ctx.agg.count("probe.damaged_bytes_content_rule_only_in_generic_decoder"),
+                    (Err(_), Ok(_)) if p.rs.is_some() => ctx.agg.count("probe.damaged_bytes_content_rule_only_in_generic_decoder"),
                     (Err(e), Ok((tv, tpos))) => {
                         return Some(Failure::new("decoders-disagree", sig(dec), format!("{} damaged/random bytes are no datum for read_value ({e}) but {dec} returned Ok({}) consuming {tpos} [probe={pj}]", bytes.len(), tv.as_ref().map(crate::gen::describe_value).unwrap_or_else(|| "any".into()))));
                     }
